@@ -22,8 +22,10 @@ def has_sig(res, sig):
     for v in res.get("violations", []):
         if sig_of(v) == tuple(sig):
             return True
-    if sig[0] in ("HANG", "CRASH") and res.get("status") == sig[0]:
-        return True
+        # liveness/crash classes are re-labelled with the campaign's property by the launcher
+        if v["prop"] in ("LIVENESS", "HANG", "CRASH") and len(sig) == 3 and \
+                (sig[1], sig[2]) == (v["prop"].lower() + ":" + v["clause"], v.get("coarse") or v["site"]):
+            return True
     return False
 
 
